@@ -14,6 +14,7 @@ from vp import gen, probe, propmodel, refmodels as rm
 from vp import defaults
 from vp import reuse
 from vp import forms as argforms
+from vp import corners
 
 RULE = ('seeded generator: random apertures 4..22 per side and random partitions of their support into 1..8 segments '
         '(stripes / nearest-seed blobs / interleaved pixels), random OPDs, chains of one or two masked planes (second '
@@ -22,7 +23,7 @@ RULE = ('seeded generator: random apertures 4..22 per side and random partitions
         'descriptors; non-trivial = k >= 2 or padded.')
 ASSUMPTIONS = ['segments of one plane are pairwise disjoint (a partition)']
 PLAN = {'quick': {'gen': 8}, 'thorough': {'gen': 16, 'tests': 1}}
-REQUIRED_BUCKETS = ['defaults', 'reuse', 'forms', 'k=1', 'k=2', 'k=3-8', 'bbox-overlap', 'style:stripes', 'style:blobs', 'style:interleaved',
+REQUIRED_BUCKETS = ['defaults', 'corners', 'reuse', 'forms', 'k=1', 'k=2', 'k=3-8', 'bbox-overlap', 'style:stripes', 'style:blobs', 'style:interleaved',
                     'chain:1', 'chain:2', 'chain:2-segmented', 'chain:2-same-boxes', 'propagated', 'padded', 'tilt-chain', 'segment-tilts', 'fitted-vs-global',
                     'fft', 'fft:scratch', 'groups:partial', 'rescale-after-use']
 REQUIRED_ANCHORS = ['probe:propagate_dft', 'probe:propagate_fft', 'probe:Wavefront.insert', 'anchor:Plane.multiply', 'anchor:slice_offset', 'anchor:boundary_slice',
@@ -98,6 +99,7 @@ def workload(ctx, lentil):
     defaults.run(ctx, lentil, 'C03', 'seg=mono:field')
     reuse.run(ctx, lentil, 'C03', 'seg=mono:field')
     argforms.run(ctx, lentil, 'C03', 'seg=mono:field')
+    corners.run(ctx, lentil, 'C03', 'seg=mono:field')
     rng = ctx.rng
     n = ctx.count(110, 800)
     hi = 22 if ctx.tier == 'quick' else 40
